@@ -134,8 +134,15 @@ pub fn format_return(ctx: &Context, return_node: &Return, shape: Shape) -> Retur
                             .over_budget()
                     {
                         // Hang the pair, using the original expression for formatting
+                        // If the pair is punctuated, its trailing comments have already been moved after the punctuation
+                        let has_punctuation = formatted.punctuation().is_some();
                         formatted = formatted.map(|_| {
                             let expression = hang_expression(ctx, original, shape, Some(1));
+                            let expression = if has_punctuation {
+                                expression.update_trailing_trivia(FormatTriviaType::Replace(vec![]))
+                            } else {
+                                expression
+                            };
                             if idx == 0 {
                                 expression
                             } else {
@@ -184,7 +191,10 @@ pub fn format_return(ctx: &Context, return_node: &Return, shape: Shape) -> Retur
                     shape.take_first_line(&strip_trailing_trivia(&formatted_returns));
 
                 // Find the better format out of the hanging shape or the normal formatting
-                if hanging_shape.used_width() < formatting_shape.used_width() {
+                // If there are comments inside of the expression, it must be hung, otherwise they will comment out code
+                if returns.iter().any(|expression| expression.has_inline_comments())
+                    || hanging_shape.used_width() < formatting_shape.used_width()
+                {
                     // Hanging version is better
                     hanging_returns
                 } else {
